@@ -190,32 +190,61 @@ Ltac zeqb :=
   | H : ?a <> ?b |- context [Z.eqb ?a ?b] => rewrite (proj2 (Z.eqb_neq a b) H)
   end.
 
+(* the hypothesis the OLD shape of EPollPoller::updateChannel (se = false, before a5a0563) needs *)
+Definition eextra (se : bool) (sp : spec) (o : op) : Prop := se = false -> sclean sp o.
+Lemma eextra_true : forall sp o, eextra true sp o.
+Proof. intros sp o H. discriminate. Qed.
+
+Section Epoll.
+Variable se : bool.
+
 (* ---- EPollPoller::updateChannel / removeChannel: one equation per branch ---------------------- *)
 Lemma epu_new : forall st c ch, e_objs st c = Some ch -> index ch = kNew ->
-  e_map st (fd ch) = None -> klookup (e_kern st) (fd ch) = None ->
-  ep_updateChannel c st =
+  e_map st (fd ch) = None -> klookup (e_kern st) (fd ch) = None -> se && isNone ch = false ->
+  ep_updateChannel se c st =
   Ok (mkEp (upd (e_objs st) c (Some (set_index ch kAdded))) (upd (e_map st) (fd ch) (Some c))
            (e_kern st ++ [mkKent (fd ch) (events ch) c]) (e_cap st) (e_kerr st)).
 Proof.
-  intros st c ch Ho Hi Hm Hk. unfold ep_updateChannel. rewrite Ho, Hi, Z.eqb_refl. cbn [orb].
-  rewrite Hm. cbn [bind]. unfold ep_ctl. cbn [e_kern ep_set_objs ep_set_map fd set_index].
+  intros st c ch Ho Hi Hm Hk HS. unfold ep_updateChannel. rewrite Ho, Hi, Z.eqb_refl. cbn [orb].
+  rewrite Hm. cbn [bind]. rewrite HS. unfold ep_ctl. cbn [e_kern ep_set_objs ep_set_map fd set_index].
   rewrite Hk. reflexivity.
 Qed.
+(* a5a0563: a new channel whose interest is empty is recorded in channels_ and marked kDeleted *)
+Lemma epu_new_empty : forall st c ch, e_objs st c = Some ch -> index ch = kNew ->
+  e_map st (fd ch) = None -> se = true -> isNone ch = true ->
+  ep_updateChannel se c st =
+  Ok (mkEp (upd (e_objs st) c (Some (set_index ch kDeleted))) (upd (e_map st) (fd ch) (Some c))
+           (e_kern st) (e_cap st) (e_kerr st)).
+Proof.
+  intros st c ch Ho Hi Hm HS HN. unfold ep_updateChannel. rewrite Ho, Hi, Z.eqb_refl. cbn [orb].
+  rewrite Hm. cbn [bind]. rewrite HS, HN. reflexivity.
+Qed.
 Lemma epu_deleted : forall st c ch, e_objs st c = Some ch -> index ch = kDeleted ->
-  e_map st (fd ch) = Some c -> klookup (e_kern st) (fd ch) = None ->
-  ep_updateChannel c st =
+  e_map st (fd ch) = Some c -> klookup (e_kern st) (fd ch) = None -> se && isNone ch = false ->
+  ep_updateChannel se c st =
   Ok (mkEp (upd (e_objs st) c (Some (set_index ch kAdded))) (e_map st)
            (e_kern st ++ [mkKent (fd ch) (events ch) c]) (e_cap st) (e_kerr st)).
 Proof.
-  intros st c ch Ho Hi Hm Hk. unfold ep_updateChannel. rewrite Ho, Hi.
+  intros st c ch Ho Hi Hm Hk HS. unfold ep_updateChannel. rewrite Ho, Hi.
   destruct kconst_distinct as [_ [D1 D2]].
   rewrite (proj2 (Z.eqb_neq kDeleted kNew)) by congruence. rewrite Z.eqb_refl. cbn [orb].
-  rewrite Hm, Nat.eqb_refl. cbn [bind]. unfold ep_ctl. cbn [e_kern ep_set_objs fd set_index].
+  rewrite Hm, Nat.eqb_refl. cbn [bind]. rewrite HS. unfold ep_ctl. cbn [e_kern ep_set_objs fd set_index].
   rewrite Hk. reflexivity.
+Qed.
+(* a5a0563: a kDeleted channel whose interest is still empty stays as it is *)
+Lemma epu_deleted_empty : forall st c ch, e_objs st c = Some ch -> index ch = kDeleted ->
+  e_map st (fd ch) = Some c -> se = true -> isNone ch = true ->
+  ep_updateChannel se c st =
+  Ok (mkEp (upd (e_objs st) c (Some (set_index ch kDeleted))) (e_map st) (e_kern st) (e_cap st) (e_kerr st)).
+Proof.
+  intros st c ch Ho Hi Hm HS HN. unfold ep_updateChannel. rewrite Ho, Hi.
+  destruct kconst_distinct as [_ [D1 D2]].
+  rewrite (proj2 (Z.eqb_neq kDeleted kNew)) by congruence. rewrite Z.eqb_refl. cbn [orb].
+  rewrite Hm, Nat.eqb_refl. cbn [bind]. rewrite HS, HN. reflexivity.
 Qed.
 Lemma epu_added : forall st c ch k0, e_objs st c = Some ch -> index ch = kAdded ->
   e_map st (fd ch) = Some c -> klookup (e_kern st) (fd ch) = Some k0 ->
-  ep_updateChannel c st =
+  ep_updateChannel se c st =
   if isNone ch
   then Ok (mkEp (upd (e_objs st) c (Some (set_index ch kDeleted))) (e_map st) (kdel (e_kern st) (fd ch)) (e_cap st) (e_kerr st))
   else Ok (mkEp (e_objs st) (e_map st) (kmod (e_kern st) (fd ch) (events ch) c) (e_cap st) (e_kerr st)).
@@ -316,6 +345,46 @@ Proof.
   - apply (ie_cap _ _ I).
   - apply (ie_capmin _ _ I).
 Qed.
+
+(* a5a0563: c becomes / stays registered with an EMPTY interest: recorded in channels_, index kDeleted,
+   nothing in the kernel's set *)
+Lemma invE_after_empty : forall objs' map',
+  objs' c = Some (mkChan (fd ch) ev' kDeleted true) -> (forall c0, c0 <> c -> objs' c0 = e_objs st c0) ->
+  ev' = 0%N ->
+  (s_reg s = true \/ ~ fd_taken sp (s_fd s)) ->
+  (s_reg s = false \/ s_ev s = 0%N) ->
+  (forall f c0, map' f = Some c0 <-> (e_map st f = Some c0 /\ f <> s_fd s) \/ (f = s_fd s /\ c0 = c)) ->
+  InvE (mkEp objs' map' (e_kern st) (e_cap st) (e_kerr st)) sp'.
+Proof.
+  intros objs' map' Hoc Hoo Hev G OFF Hmap. constructor; cbn [e_objs e_map e_kern e_cap e_kerr].
+  - intros c0. unfold sp'. destruct (Nat.eq_dec c0 c) as [->|N].
+    + rewrite Hoc, upd_eq. cbn. repeat split; auto. right. right. cbn. auto.
+    + rewrite Hoo, upd_neq by auto. apply (ie_obj _ _ I).
+  - intros f c0. rewrite Hmap. unfold sp'. split.
+    + intros [[A B]|[-> ->]].
+      * apply (ie_map _ _ I) in A. destruct A as [s0 [A1 [A2 A3]]].
+        assert (c0 <> c) by (intros ->; congruence).
+        exists s0. rewrite upd_neq by auto. auto.
+      * rewrite upd_eq. eexists. split; [reflexivity|]. cbn. auto.
+    + intros [s0 [A1 [A2 A3]]]. destruct (Nat.eq_dec c0 c) as [->|N].
+      * rewrite upd_eq in A1. injection A1 as <-. cbn in A3. right. auto.
+      * rewrite upd_neq in A1 by auto. left. split; [apply (ie_map _ _ I); exists s0; auto|].
+        intros ->. destruct G as [G|G].
+        -- apply N. eapply reg_unique; eauto.
+        -- apply G. exists c0, s0. auto.
+  - apply (ie_nodup _ _ I).
+  - intros k. rewrite (ie_kern _ _ I). unfold sp'. split.
+    + intros [s0 [A1 [A2 [A3 [A4 A5]]]]].
+      assert (k_cid k <> c).
+      { intros E. rewrite E in A1. assert (s0 = s) by congruence. subst s0. destruct OFF; congruence. }
+      exists s0. rewrite upd_neq by auto. auto.
+    + intros [s0 [A1 [A2 [A3 [A4 A5]]]]]. destruct (Nat.eq_dec (k_cid k) c) as [E|N].
+      * rewrite E, upd_eq in A1. injection A1 as <-. cbn in A3. contradiction.
+      * rewrite upd_neq in A1 by auto. eauto 10.
+  - apply (ie_kerr _ _ I).
+  - apply (ie_cap _ _ I).
+  - apply (ie_capmin _ _ I).
+Qed.
 End EpollUpd.
 
 Lemma upd_upd_eq : forall A (m : nat -> option A) k v w, upd (upd m k v) k w k = w.
@@ -323,10 +392,13 @@ Proof. intros. apply upd_eq. Qed.
 Lemma upd_upd_neq : forall A (m : nat -> option A) k v w x, x <> k -> upd (upd m k v) k w x = m x.
 Proof. intros. now rewrite !upd_neq. Qed.
 
-Lemma ep_upd_ok : forall st sp u c, InvE st sp -> sguard sp (Upd u c) -> sclean sp (Upd u c) ->
-  exists st', ep_step st (Upd u c) = Ok (st', []) /\ InvE st' (spec_step sp (Upd u c)).
+Lemma ep_upd_ok : forall st sp u c, InvE st sp -> sguard sp (Upd u c) -> eextra se sp (Upd u c) ->
+  exists st', ep_step se st (Upd u c) = Ok (st', []) /\ InvE st' (spec_step sp (Upd u c)).
 Proof.
-  intros st sp u c I [s [Hs G]] CL. cbn in CL. specialize (CL s Hs).
+  intros st sp u c I [s [Hs G]] CL0.
+  assert (CL : se = false -> apply_uop u (s_ev s) = 0%N -> s_reg s = true /\ s_ev s <> 0%N).
+  { intros F. exact (CL0 F s Hs). }
+  assert (SED : se = true \/ se = false) by (destruct (Bool.bool_dec se true) as [X|X]; [auto|right; now apply not_true_is_false]).
   pose proof (ie_obj _ _ I c) as RO. rewrite Hs in RO. apply rel_obj_some in RO.
   destruct RO as [ch [Ho [Efd [Eev [Ead OK]]]]].
   cbn [ep_step spec_step]. rewrite Ho, Hs, Eev.
@@ -338,17 +410,28 @@ Proof.
   - (* kNew: not registered *)
     assert (R : s_reg s = false) by congruence.
     destruct G as [G|G]; [congruence|].
-    assert (Hev : ev' <> 0%N). { intros E. destruct (CL E). congruence. }
     destruct (free_fd _ _ _ I G) as [Fm Fk]. rewrite <- Efd in Fm, Fk.
-    rewrite (epu_new st0 c ch' Ho0 A2 Fm Fk). cbn [bind]. eexists. split; [reflexivity|].
+    assert (MAPNEW : forall f c0, upd (e_map st) (fd ch) (Some c) f = Some c0 <->
+              (e_map st f = Some c0 /\ f <> s_fd s) \/ (f = s_fd s /\ c0 = c)).
+    { intros f c0. rewrite Efd. unfold upd. destruct (Nat.eqb_spec f (s_fd s)) as [->|N].
+      * rewrite Efd in Fm. rewrite Fm. split; [intros H; injection H as <-; auto|].
+        intros [[H _]|[_ ->]]; [discriminate|auto].
+      * split; [auto|]. intros [[H _]|[H _]]; [auto|contradiction]. }
+    destruct (N.eq_dec ev' 0) as [Z0|Hev].
+    { (* the update leaves the interest empty on a channel that is not registered *)
+      destruct SED as [SE|SE]; [|exfalso; destruct (CL SE Z0); congruence].
+      assert (HN : isNone ch' = true) by (apply isNone_iff; exact Z0).
+      rewrite (epu_new_empty st0 c ch' Ho0 A2 Fm SE HN). cbn [bind]. eexists. split; [reflexivity|].
+      subst ch' st0. cbn [fd events e_objs e_map e_kern e_cap e_kerr ep_set_objs set_index index added].
+      eapply (invE_after_empty st sp u c s ch I Hs Efd); auto.
+      + apply upd_eq.
+      + intros c0 N. now apply upd_upd_neq. }
+    assert (HSE : se && isNone ch' = false) by (rewrite (isNone_false ch' Hev); apply andb_false_r).
+    rewrite (epu_new st0 c ch' Ho0 A2 Fm Fk HSE). cbn [bind]. eexists. split; [reflexivity|].
     subst ch' st0. cbn [fd events e_objs e_map e_kern e_cap e_kerr ep_set_objs set_index index added].
     eapply (invE_after_add st sp u c s ch I Hs Efd); auto.
     + apply upd_eq.
     + intros c0 N. now apply upd_upd_neq.
-    + intros f c0. rewrite Efd. unfold upd. destruct (Nat.eqb_spec f (s_fd s)) as [->|N].
-      * rewrite Efd in Fm. rewrite Fm. split; [intros H; injection H as <-; auto|].
-        intros [[H _]|[_ ->]]; [discriminate|auto].
-      * split; [auto|]. intros [[H _]|[H _]]; [auto|contradiction].
     + rewrite map_app. cbn. apply NoDup_app_end; [apply (ie_nodup _ _ I)|]. now apply klookup_none.
     + intros k. rewrite in_app_iff. cbn. rewrite Efd. split.
       * intros [H|[H|[]]]; [left; split; auto|right; auto].
@@ -405,21 +488,33 @@ Proof.
            change (fd ch) with (k_fd (mkKent (fd ch) (events ch) c)). now apply in_map.
   - (* kDeleted: registered with an empty interest: the update re-adds *)
     assert (R : s_reg s = true) by congruence.
-    assert (Hev : ev' <> 0%N). { intros E. destruct (CL E). congruence. }
     assert (Hm : e_map st (fd ch) = Some c). { apply (ie_map _ _ I). exists s. auto. }
+    assert (MAPSAME : forall f c0, e_map st f = Some c0 <->
+              (e_map st f = Some c0 /\ f <> s_fd s) \/ (f = s_fd s /\ c0 = c)).
+    { intros f c0. rewrite <- Efd. split.
+      * intros H. destruct (Nat.eq_dec f (fd ch)) as [->|N]; [right; split; congruence|left; auto].
+      * intros [[H _]|[-> ->]]; auto. }
+    destruct (N.eq_dec ev' 0) as [Z0|Hev].
+    { (* a redundant disable: the channel stays recorded, not in the epoll set *)
+      destruct SED as [SE|SE]; [|exfalso; destruct (CL SE Z0); congruence].
+      assert (HN : isNone ch' = true) by (apply isNone_iff; exact Z0).
+      rewrite (epu_deleted_empty st0 c ch' Ho0 A3 Hm SE HN). cbn [bind]. eexists. split; [reflexivity|].
+      subst ch' st0. cbn [fd events e_objs e_map e_kern e_cap e_kerr ep_set_objs set_index index added].
+      eapply (invE_after_empty st sp u c s ch I Hs Efd); auto.
+      + apply upd_eq.
+      + intros c0 N. now apply upd_upd_neq.
+      + right. congruence. }
+    assert (HSE : se && isNone ch' = false) by (rewrite (isNone_false ch' Hev); apply andb_false_r).
     assert (Fk : klookup (e_kern st) (fd ch) = None).
     { destruct (klookup (e_kern st) (fd ch)) as [k|] eqn:E; [|auto]. exfalso.
       destruct (klookup_taken _ _ _ _ I E) as [s0 [B1 [B2 [B3 [B4 _]]]]].
       assert (k_cid k = c) by (eapply reg_unique; eauto; congruence). subst c.
       assert (s0 = s) by congruence. subst. congruence. }
-    rewrite (epu_deleted st0 c ch' Ho0 A3 Hm Fk). cbn [bind]. eexists. split; [reflexivity|].
+    rewrite (epu_deleted st0 c ch' Ho0 A3 Hm Fk HSE). cbn [bind]. eexists. split; [reflexivity|].
     subst ch' st0. cbn [fd events e_objs e_map e_kern e_cap e_kerr ep_set_objs set_index index added].
     eapply (invE_after_add st sp u c s ch I Hs Efd); auto.
     + apply upd_eq.
     + intros c0 N. now apply upd_upd_neq.
-    + intros f c0. rewrite <- Efd. split.
-      * intros H. destruct (Nat.eq_dec f (fd ch)) as [->|N]; [right; split; congruence|left; auto].
-      * intros [[H _]|[-> ->]]; auto.
     + rewrite map_app. cbn. apply NoDup_app_end; [apply (ie_nodup _ _ I)|]. now apply klookup_none.
     + intros k. rewrite in_app_iff. cbn. rewrite Efd. split.
       * intros [H|[H|[]]]; [left; split; auto|right; auto].
@@ -428,7 +523,7 @@ Proof.
 Qed.
 
 Lemma ep_remove_ok : forall st sp c, InvE st sp -> sguard sp (Remove c) ->
-  exists st', ep_step st (Remove c) = Ok (st', []) /\ InvE st' (spec_step sp (Remove c)).
+  exists st', ep_step se st (Remove c) = Ok (st', []) /\ InvE st' (spec_step sp (Remove c)).
 Proof.
   intros st sp c I [s [Hs [R Z]]].
   pose proof (ie_obj _ _ I c) as RO. rewrite Hs in RO. apply rel_obj_some in RO.
@@ -493,7 +588,7 @@ Proof.
 Qed.
 
 Lemma ep_new_ok : forall st sp c f, InvE st sp -> sguard sp (New c f) ->
-  exists st', ep_step st (New c f) = Ok (st', []) /\ InvE st' (spec_step sp (New c f)).
+  exists st', ep_step se st (New c f) = Ok (st', []) /\ InvE st' (spec_step sp (New c f)).
 Proof.
   intros st sp c f I G. cbn in G.
   pose proof (ie_obj _ _ I c) as RO. rewrite G in RO. apply rel_obj_none in RO.
@@ -505,7 +600,7 @@ Proof.
 Qed.
 
 Lemma ep_del_ok : forall st sp c, InvE st sp -> sguard sp (Del c) ->
-  exists st', ep_step st (Del c) = Ok (st', []) /\ InvE st' (spec_step sp (Del c)).
+  exists st', ep_step se st (Del c) = Ok (st', []) /\ InvE st' (spec_step sp (Del c)).
 Proof.
   intros st sp c I [s [Hs R]].
   pose proof (ie_obj _ _ I c) as RO. rewrite Hs in RO. apply rel_obj_some in RO.
@@ -573,7 +668,7 @@ Definition ep_next_cap (st : ep) (nfull : nat) : nat :=
 
 Lemma ep_poll_ok : forall st sp ready choice, InvE st sp ->
   exists act rest,
-    ep_step st (Poll ready choice) =
+    ep_step se st (Poll ready choice) =
       Ok (mkEp (e_objs st) (e_map st) (e_kern st) (ep_next_cap st (length (ep_full st ready))) (e_kerr st), act) /\
     Permutation (ep_full st ready) (act ++ rest) /\
     length act = Nat.min (length (ep_full st ready)) (e_cap st).
@@ -606,7 +701,7 @@ Lemma ep_next_cap_pos : forall st n, 0 < e_cap st -> 0 < ep_next_cap st n.
 Proof. intros st n H. pose proof (ep_next_cap_ge st n). lia. Qed.
 
 (* a violated precondition of the Channel API is rejected, whatever else *)
-Lemma ep_rejected : forall st sp o, InvE st sp -> ~ sguard sp o -> ep_step st o = Rejected.
+Lemma ep_rejected : forall st sp o, InvE st sp -> ~ sguard sp o -> ep_step se st o = Rejected.
 Proof.
   intros st sp o I NG. destruct o as [c f|c|u c|c|ready choice]; cbn in NG.
   - cbn [ep_step]. pose proof (ie_obj _ _ I c) as RO.
@@ -645,11 +740,11 @@ Qed.
 (* ---- reachability and the refinement statement for epoll ------------------------------------- *)
 Inductive reachE : ep -> spec -> Prop :=
 | reachE_init : reachE ep_init spec0
-| reachE_step : forall st sp o st' act, reachE st sp -> sguard sp o -> sclean sp o ->
-    ep_step st o = Ok (st', act) -> reachE st' (spec_step sp o).
+| reachE_step : forall st sp o st' act, reachE st sp -> sguard sp o -> eextra se sp o ->
+    ep_step se st o = Ok (st', act) -> reachE st' (spec_step sp o).
 
-Lemma ep_step_ok : forall st sp o, InvE st sp -> sguard sp o -> sclean sp o ->
-  exists st' act, ep_step st o = Ok (st', act) /\ InvE st' (spec_step sp o).
+Lemma ep_step_ok : forall st sp o, InvE st sp -> sguard sp o -> eextra se sp o ->
+  exists st' act, ep_step se st o = Ok (st', act) /\ InvE st' (spec_step sp o).
 Proof.
   intros st sp o I G CL. destruct o as [c f|c|u c|c|ready choice].
   - destruct (ep_new_ok _ _ _ _ I G) as [st' [E I']]. eauto.
@@ -668,8 +763,8 @@ Qed.
 
 Lemma reachE_refines : forall st sp, reachE st sp ->
   forall o,
-    (sguard sp o -> sclean sp o ->
-       exists st' act, ep_step st o = Ok (st', act) /\ reachE st' (spec_step sp o) /\
+    (sguard sp o -> eextra se sp o ->
+       exists st' act, ep_step se st o = Ok (st', act) /\ reachE st' (spec_step sp o) /\
          e_kerr st' = 0 /\
          match o with
          | Poll ready choice =>
@@ -683,7 +778,7 @@ Lemma reachE_refines : forall st sp, reachE st sp ->
              e_objs st' = e_objs st /\ e_map st' = e_map st /\ e_kern st' = e_kern st
          | _ => act = []
          end) /\
-    (~ sguard sp o -> ep_step st o = Rejected).
+    (~ sguard sp o -> ep_step se st o = Rejected).
 Proof.
   intros st sp R o. pose proof (reachE_inv _ _ R) as I. split.
   - intros G CL. destruct (ep_step_ok _ _ _ I G CL) as [st' [act [E I']]].
@@ -701,7 +796,7 @@ Proof.
 Qed.
 
 (* no history meeting the preconditions (and free of redundant disables) faults or makes epoll_ctl fail *)
-Lemma reachE_no_fault : forall st sp o, reachE st sp -> sclean sp o -> ep_step st o <> Fault.
+Lemma reachE_no_fault : forall st sp o, reachE st sp -> eextra se sp o -> ep_step se st o <> Fault.
 Proof.
   intros st sp o R CL. pose proof (reachE_inv _ _ R) as I.
   assert (D : sguard sp o \/ ~ sguard sp o).
@@ -710,7 +805,7 @@ Proof.
     - destruct (sp c) as [s|]; [|right; intros [s [H _]]; discriminate].
       destruct (s_reg s) eqn:E; [right; intros [s0 [H H2]]; congruence|left; eauto].
     - (* decided by what the model does *)
-      destruct (ep_step st (Upd u c)) eqn:E.
+      destruct (ep_step se st (Upd u c)) eqn:E.
       + destruct (sp c) as [s|] eqn:Hs.
         * destruct (s_reg s) eqn:Rg; [left; eauto|].
           pose proof (ie_obj _ _ I c) as RO. rewrite Hs in RO. apply rel_obj_some in RO.
@@ -733,6 +828,8 @@ Proof.
   - destruct (ep_step_ok _ _ _ I G CL) as [st' [act [E _]]]. congruence.
   - rewrite (ep_rejected _ _ _ I NG). discriminate.
 Qed.
+
+End Epoll.
 
 (* ---- dispatch ------------------------------------------------------------------------------------ *)
 Lemma has_true : forall r m, has r m = true <-> N.land r m <> 0%N.
@@ -778,19 +875,21 @@ Proof.
 Qed.
 
 (* ---- growth bound --------------------------------------------------------------------------------- *)
+Section EpollGrowth.
+Variable se : bool.
 Lemma ep_full_kern : forall st st' ready, e_kern st' = e_kern st -> ep_full st' ready = ep_full st ready.
 Proof. intros. unfold ep_full. now rewrite H. Qed.
 
 Lemma ep_polls_grow : forall choices st sp ready,
   InvE st sp ->
   length (ep_full st ready) < e_cap st * 2 ^ length choices ->
-  exists st' outs, ep_run st (map (Poll ready) choices) = Ok (st', outs) /\
+  exists st' outs, ep_run se st (map (Poll ready) choices) = Ok (st', outs) /\
      InvE st' sp /\ e_kern st' = e_kern st /\ length (ep_full st ready) < e_cap st'.
 Proof.
   induction choices as [|ch t IH]; intros st sp ready I H.
   - cbn [length Nat.pow] in H. rewrite Nat.mul_1_r in H. cbn [map ep_run]. exists st, []. split; [reflexivity|]. split; [exact I|]. split; [reflexivity|exact H].
   - cbn [map ep_run length] in *.
-    destruct (ep_poll_ok _ _ ready ch I) as [act [rest [E _]]]. rewrite E. cbn [bind fst snd].
+    destruct (ep_poll_ok se _ _ ready ch I) as [act [rest [E _]]]. rewrite E. cbn [bind fst snd].
     set (st1 := mkEp (e_objs st) (e_map st) (e_kern st) (ep_next_cap st (length (ep_full st ready))) (e_kerr st)).
     assert (I1 : InvE st1 sp). { apply invE_cap; auto. apply ep_next_cap_ge. }
     assert (F1 : ep_full st1 ready = ep_full st ready) by (apply ep_full_kern; reflexivity).
@@ -813,12 +912,12 @@ Qed.
 Lemma ep_polls_report_all : forall choices choice st sp ready,
   InvE st sp ->
   length (ep_full st ready) < e_cap st * 2 ^ length choices ->
-  exists st' outs st'' act, ep_run st (map (Poll ready) choices) = Ok (st', outs) /\
-     ep_step st' (Poll ready choice) = Ok (st'', act) /\ Permutation (ep_full st ready) act.
+  exists st' outs st'' act, ep_run se st (map (Poll ready) choices) = Ok (st', outs) /\
+     ep_step se st' (Poll ready choice) = Ok (st'', act) /\ Permutation (ep_full st ready) act.
 Proof.
   intros choices choice st sp ready I H.
   destruct (ep_polls_grow choices st sp ready I H) as [st' [outs [E [I' [K C]]]]].
-  destruct (ep_poll_ok st' sp ready choice I') as [act [rest [E2 [HP HL]]]].
+  destruct (ep_poll_ok se st' sp ready choice I') as [act [rest [E2 [HP HL]]]].
   rewrite (ep_full_kern st st' ready K) in HP, HL.
   exists st', outs. eexists _, act. split; [exact E|]. split; [exact E2|].
   assert (rest = []).
@@ -828,17 +927,19 @@ Qed.
 
 (* from ANY reachable state the array has at least its initial (generated) size *)
 Lemma reachE_polls_report_all : forall choices choice st sp ready,
-  reachE st sp ->
+  reachE se st sp ->
   length (ep_full st ready) < kInitEventListSize * 2 ^ length choices ->
-  exists st' outs st'' act, ep_run st (map (Poll ready) choices) = Ok (st', outs) /\
-     ep_step st' (Poll ready choice) = Ok (st'', act) /\ Permutation (ep_full st ready) act.
+  exists st' outs st'' act, ep_run se st (map (Poll ready) choices) = Ok (st', outs) /\
+     ep_step se st' (Poll ready choice) = Ok (st'', act) /\ Permutation (ep_full st ready) act.
 Proof.
-  intros choices choice st sp ready R H. pose proof (reachE_inv _ _ R) as I.
+  intros choices choice st sp ready R H. pose proof (reachE_inv se _ _ R) as I.
   apply (ep_polls_report_all choices choice st sp ready I).
   pose proof (ie_capmin _ _ I) as CM.
   assert (kInitEventListSize * 2 ^ length choices <= e_cap st * 2 ^ length choices) by (apply Nat.mul_le_mono_r; exact CM).
   lia.
 Qed.
+
+End EpollGrowth.
 
 (* ---- the generated growth guard of EPollPoller::poll (Gen_C09, translated from the AST) ------------ *)
 Lemma ep_grow_link : forall n cap,
@@ -860,13 +961,13 @@ Qed.
 
 (* what EPollPoller::poll does to events_.size(): exactly the generated guard on numEvents = the number
    of entries epoll_wait returned *)
-Lemma ep_poll_cap_generated : forall st ready choice st' act,
-  ep_step st (Poll ready choice) = Ok (st', act) ->
+Lemma ep_poll_cap_generated : forall se st ready choice st' act,
+  ep_step se st (Poll ready choice) = Ok (st', act) ->
   Z.of_nat (e_cap st') =
   if EPollPoller_poll_grow_guard (Z.of_nat (length act)) (Z.of_nat (e_cap st))
   then EPollPoller_poll_new_size (Z.of_nat (e_cap st)) else Z.of_nat (e_cap st).
 Proof.
-  intros st ready choice st' act E. cbn [ep_step] in E. unfold ep_poll in E.
+  intros se st ready choice st' act E. cbn [ep_step] in E. unfold ep_poll in E.
   set (full := ep_full st ready) in *. set (n := Nat.min (length full) (e_cap st)) in *.
   destruct (forallb (ep_fill_ok st) (pick n choice full)); [|discriminate].
   injection E as <- <-. cbn [e_cap].
@@ -908,3 +1009,96 @@ Proof.
   - intros -> ->. reflexivity.
   - intros [->| ->]; [reflexivity|]. destruct tied; reflexivity.
 Qed.
+
+(* ---- the epoll back-end of the CURRENT tree (F-14 fixed, a5a0563): preconditions only -------------------
+   The generated fact says EPollPoller::updateChannel ADDs a channel only when its interest is not empty
+   and otherwise just records it (kDeleted); reverting the fix flips the fact and breaks this lemma. *)
+Lemma add_skips_current : EPollPoller_add_skips_empty_interest = true.
+Proof. reflexivity. Qed.
+
+Lemma ep_step_current_eq : forall st o, ep_step_current st o = ep_step true st o.
+Proof. intros. unfold ep_step_current. now rewrite add_skips_current. Qed.
+Lemma ep_run_current_eq : forall ops st, ep_run_current st ops = ep_run true st ops.
+Proof. intros. unfold ep_run_current. now rewrite add_skips_current. Qed.
+
+Inductive reachEC : ep -> spec -> Prop :=
+| reachEC_init : reachEC ep_init spec0
+| reachEC_step : forall st sp o st' act, reachEC st sp -> sguard sp o ->
+    ep_step_current st o = Ok (st', act) -> reachEC st' (spec_step sp o).
+
+Lemma reachEC_reachE : forall st sp, reachEC st sp -> reachE true st sp.
+Proof.
+  induction 1 as [|st sp o st' act R IH G E]; [constructor|].
+  rewrite ep_step_current_eq in E. econstructor; eauto. apply eextra_true.
+Qed.
+Lemma reachE_reachEC : forall st sp, reachE true st sp -> reachEC st sp.
+Proof.
+  induction 1 as [|st sp o st' act R IH G _ E]; [constructor|].
+  econstructor; eauto; now rewrite ep_step_current_eq.
+Qed.
+Lemma reachEC_inv : forall st sp, reachEC st sp -> InvE st sp.
+Proof. intros st sp R. apply (reachE_inv true). now apply reachEC_reachE. Qed.
+
+(* for ALL histories meeting the documented preconditions of the Channel API *)
+Lemma reachEC_refines : forall st sp, reachEC st sp ->
+  forall o,
+    (sguard sp o ->
+       exists st' act, ep_step_current st o = Ok (st', act) /\ reachEC st' (spec_step sp o) /\
+         e_kerr st' = 0 /\
+         match o with
+         | Poll ready choice =>
+             (forall c r, In (c, r) (ep_full st ready) <-> spec_reports sp ready c r) /\
+             NoDup (map fst (ep_full st ready)) /\
+             (exists rest, Permutation (ep_full st ready) (act ++ rest)) /\
+             length act = Nat.min (length (ep_full st ready)) (e_cap st) /\
+             e_cap st' = ep_next_cap st (length (ep_full st ready)) /\
+             e_objs st' = e_objs st /\ e_map st' = e_map st /\ e_kern st' = e_kern st
+         | _ => act = []
+         end) /\
+    (~ sguard sp o -> ep_step_current st o = Rejected).
+Proof.
+  intros st sp R o. pose proof (reachEC_reachE _ _ R) as RE.
+  destruct (reachE_refines true st sp RE o) as [A B]. split.
+  - intros G. destruct (A G (eextra_true _ _)) as [st' [act [E [R' M]]]].
+    exists st', act. rewrite ep_step_current_eq. split; [exact E|]. split; [now apply reachE_reachEC|exact M].
+  - intros NG. rewrite ep_step_current_eq. now apply B.
+Qed.
+
+Lemma reachEC_no_fault : forall st sp o, reachEC st sp -> ep_step_current st o <> Fault.
+Proof.
+  intros st sp o R. rewrite ep_step_current_eq.
+  apply (reachE_no_fault true st sp o (reachEC_reachE _ _ R) (eextra_true _ _)).
+Qed.
+
+Definition no_extra : spec -> op -> Prop := fun _ _ => True.
+
+Lemma run_reachEC : forall ops st sp, reachEC st sp -> hist_ok no_extra sp ops ->
+  exists st' outs, ep_run_current st ops = Ok (st', outs) /\ reachEC st' (spec_run sp ops).
+Proof.
+  induction ops as [|o t IH]; intros st sp R H.
+  - exists st, []. split; [reflexivity|exact R].
+  - destruct H as [G [_ H]].
+    destruct (reachEC_refines st sp R o) as [A _]. destruct (A G) as [st1 [act [E [R1 _]]]].
+    destruct (IH st1 (spec_step sp o) R1 H) as [st' [outs [E' R']]].
+    unfold ep_run_current in *. cbn [ep_run]. unfold ep_step_current in E. rewrite E. cbn [bind fst snd].
+    rewrite E'. cbn [bind fst snd]. eexists _, _. split; [reflexivity|exact R'].
+Qed.
+
+Lemma reachEC_polls_report_all : forall choices choice st sp ready,
+  reachEC st sp ->
+  length (ep_full st ready) < kInitEventListSize * 2 ^ length choices ->
+  exists st' outs st'' act, ep_run_current st (map (Poll ready) choices) = Ok (st', outs) /\
+     ep_step_current st' (Poll ready choice) = Ok (st'', act) /\ Permutation (ep_full st ready) act.
+Proof.
+  intros choices choice st sp ready R H.
+  destruct (reachE_polls_report_all true choices choice st sp ready (reachEC_reachE _ _ R) H)
+    as [st' [outs [st'' [act [A [B C]]]]]].
+  exists st', outs, st'', act. rewrite ep_run_current_eq, ep_step_current_eq. auto.
+Qed.
+
+Lemma ep_polls_grow_current : forall choices st sp ready,
+  InvE st sp ->
+  length (ep_full st ready) < e_cap st * 2 ^ length choices ->
+  exists st' outs, ep_run_current st (map (Poll ready) choices) = Ok (st', outs) /\
+     InvE st' sp /\ e_kern st' = e_kern st /\ length (ep_full st ready) < e_cap st'.
+Proof. intros. rewrite ep_run_current_eq. now apply ep_polls_grow. Qed.
